@@ -71,8 +71,9 @@ def main():
         sh(f'git -C /repo worktree remove --force {wt}')
         # evidence files were rewritten by runs against the changed tree: restore the committed ones
         sh(f'git -C {VERIF} checkout -- evidence')
-    shutil.copy(patch, os.path.join(dest, 'patch.diff'))
-    shutil.copy(demo, os.path.join(dest, os.path.basename(demo)))
+    for src, dst in ((patch, os.path.join(dest, 'patch.diff')), (demo, os.path.join(dest, os.path.basename(demo)))):
+        if os.path.abspath(src) != os.path.abspath(dst):
+            shutil.copy(src, dst)
     with open(os.path.join(dest, 'meta.json'), 'w') as f:
         json.dump(meta, f, indent=1)
     print(json.dumps({k: meta[k] for k in ('confirmed', 'detected_by')}))
